@@ -116,12 +116,27 @@ def render_dict(d):
     return " ".join("%s=%s" % (enc(k), enc(v)) for k, v in d.items()) if d else "-"
 
 
+_CLOCK = [0]
+
+
+def _response_built_earlier():
+    """the response object exists for a while (a view builds it, works, then sets its cookies): it is constructed
+    three days and seven seconds before the instant `now` at which the cookie calls are made"""
+    now = _CLOCK[0]
+    _CLOCK[0] = now - 259207
+    try:
+        return BaseResponse()
+    finally:
+        _CLOCK[0] = now
+
+
 def with_clock(tz, now, fn):
     old_tz = os.environ.get("TZ")
     real = time.time
     os.environ["TZ"] = tz
     time.tzset()
-    time.time = lambda: float(now)
+    _CLOCK[0] = now
+    time.time = lambda: float(_CLOCK[0])
     try:
         return fn()
     finally:
@@ -167,7 +182,7 @@ def impl(line):
             path, domain = dec_text(args[7]), dec_text(args[8])
 
             def go():
-                r = BaseResponse()
+                r = _response_built_earlier()
                 r.set_cookie(name, value, max_age=max_age, expires=expires, path=path, domain=domain or None,
                              secure=args[9] == "1", httponly=args[10] == "1", samesite=dec_text(args[11]))
                 return header_text(r)
@@ -177,7 +192,7 @@ def impl(line):
             tz, now = args[1], int(args[2])
 
             def go():
-                r = BaseResponse()
+                r = _response_built_earlier()
                 r.delete_cookie(dec_text(args[3]), path=dec_text(args[4]), domain=dec_text(args[5]) or None,
                                 secure=args[6] == "1", httponly=args[7] == "1", samesite=dec_text(args[8]))
                 return header_text(r)
@@ -187,7 +202,7 @@ def impl(line):
             tz, now = args[1], int(args[2])
 
             def go():
-                r = BaseResponse()
+                r = _response_built_earlier()
                 for t in args[3:]:
                     f = t.split(":")
                     if f[0] == "s":
